@@ -23,9 +23,10 @@ FUNCS = [
 
 def configs(tier):
     if tier == "quick":
-        return [dict(c, query_timeout_s=150) for c in [dict(T=1, nmax=5, variant="plain"), dict(T=1, nmax=5, variant="fail"), dict(T=1, nmax=7, variant="early"),
+        return [dict(c, query_timeout_s=150) for c in [dict(T=1, nmax=5, variant="plain"), dict(T=1, nmax=5, variant="values", none_inputs=True), dict(T=1, nmax=5, variant="fail"), dict(T=1, nmax=7, variant="early"),
                 dict(T=2, nmax=2, variant="plain"), dict(T=2, nmax=2, variant="fail"), dict(T=2, nmax=2, variant="early")]]
-    return [dict(T=1, nmax=7, variant=v) for v in ("plain", "fail", "early")] + \
+    return [dict(T=1, nmax=7, variant=v) for v in ("plain", "fail", "early")] + [dict(T=1, nmax=6, variant="values", none_inputs=True),
+                                                                                  dict(T=2, nmax=2, variant="values", none_inputs=True)] + \
            [dict(T=2, nmax=3, variant=v) for v in ("plain", "fail", "early")] + \
            [dict(T=3, nmax=2, variant="plain"), dict(T=3, nmax=1, variant="fail"), dict(T=3, nmax=2, variant="early"),
             dict(T=1, nmax=1, variant="early"), dict(T=1, nmax=2, variant="plain")]
@@ -41,7 +42,7 @@ def run_config(cfg):
     t0 = time.time()
     try:
         comp = pocomp.Composition(lp, T, nmax, fail=(variant == "fail"), early=(variant == "early"),
-                                  query_timeout_s=cfg.get("query_timeout_s", 600))
+                                  query_timeout_s=cfg.get("query_timeout_s", 600), none_inputs=bool(cfg.get("none_inputs")))
     except pocomp.Inconclusive as inc:
         st.inconclusive.append(f"{cfg}: {inc}")
         return st
@@ -82,7 +83,17 @@ def run_config(cfg):
     want_unsat("deadlock or leaked worker: a maximal state in which some thread is blocked forever at a get",
                "deadlock-or-leak" if variant != "fail" else "deadlock-when-mapped-function-fails",
                comp.all_stuck(), comp.any_blocked())
-    if variant == "plain":
+    if variant == "values":
+        # the VALUES of the inputs are arbitrary objects (one of them may be None): the pool must not read meaning into them
+        want_unsat("no call failed, yet an exception made up by the pool reaches the consumer (an input VALUE mistaken for a marker)",
+                   "pool-raises-without-failure", z3.Or(comp.foreign_raises + [z3.BoolVal(False)]))
+        cnt = z3.Sum([z3.If(z3.And(ex, comp.idxQr(j) == i), 1, 0) for ex, j, _ in comp.emits] + [z3.IntVal(0)])
+        want_unsat("all threads finished, consumer ended normally, but some input was not yielded exactly once",
+                   "not-exactly-once", comp.all_finished(), z3.Or(comp.normal_end + [z3.BoolVal(False)]), i >= 0, i < n, cnt != 1)
+        want_sat("twin: all threads finished with n = nmax", comp.all_finished(), n == nmax)
+    elif variant == "plain":
+        want_unsat("no call failed, yet an exception made up by the pool reaches the consumer",
+                   "pool-raises-without-failure", z3.Or(comp.foreign_raises + [z3.BoolVal(False)]))
         cnt = z3.Sum([z3.If(z3.And(ex, comp.idxQr(j) == i), 1, 0) for ex, j, _ in comp.emits] + [z3.IntVal(0)])
         want_unsat("all threads finished, consumer ended normally, but some input was not yielded exactly once",
                    "not-exactly-once", comp.all_finished(), z3.Or(comp.normal_end + [z3.BoolVal(False)]), i >= 0, i < n, cnt != 1)
@@ -193,12 +204,33 @@ def _deferred_failure(sch):
     return False, f"error surfaced after {out['results']} results"
 
 
+def _arbitrary_values(sch):
+    """Real pool, real threads, identity function; the inputs are arbitrary objects, the one the model names is None."""
+    import importlib
+    import sedpack.io.itertools.lazy_pool as lp
+    lp = importlib.reload(lp)
+    T, n = sch["T"], sch["n"]
+    inputs = [("value", i) for i in range(n)]
+    if sch.get("none_input") is not None and sch["none_input"] < n:
+        inputs[sch["none_input"]] = None
+    try:
+        with lp.LazyPool(T) as pool:
+            got = list(pool.imap_unordered(lambda v: v, iter(inputs)))
+    except Exception as exc:  # noqa: BLE001
+        return True, f"real LazyPool({T}) over inputs {inputs} with the identity function raised {type(exc).__name__}: {str(exc)[:80]}"
+    if sorted(map(repr, got)) != sorted(map(repr, inputs)):
+        return True, f"real LazyPool({T}) over inputs {inputs} yielded {got}"
+    return False, "every input value came back exactly once"
+
+
 def replay(case):
     common.import_sedpack()
     sch = case["schedule"]
     kind = case["kind"]
     if kind == "failure-deferred":
         return _deferred_failure(sch)
+    if kind == "pool-raises-without-failure" or sch.get("none_input") is not None:
+        return _arbitrary_values(sch)
     attempts = []
     for attempt in range(4):
         s2 = dict(sch)
